@@ -133,7 +133,7 @@ def oracle(ctx, svc, snap, start, reqs, race, schedule):
 
 def run_worker(ctx):
     engc.run_cases(ctx, cgen.consumer_race_case, oracle,
-                   examples=ctx.pick(6, 50))
+                   examples=ctx.pick(6, 24))
 
 
 def replay(ctx, data):
